@@ -595,6 +595,12 @@ func (st *c11State) checkLive() {
 			if first[k] <= from || !broadcastClass(e) {
 				continue
 			}
+			if e.Pkg.Head.Event == world.EvSession && e.Pkg.Body.SubEvent == world.SessNew {
+				// a session that appears while an operator is being replayed may legitimately reach
+				// it twice (once in the replay's session list, once live): compare presence only
+				counts[i][k] = 1
+				continue
+			}
 			counts[i][k]++
 		}
 	}
